@@ -1,4 +1,6 @@
 """C05 - total modulus = fitted static table + phonon part, end to end from files."""
+import os
+
 import numpy
 
 from ..e2e import E2E
@@ -100,6 +102,11 @@ def _run(ctx, e2e):
             ds.spec = spectrum_from_lsq(ds.volumes, ds.freqs, order, ds.weights, ds.natoms)   # the polynomial a least-squares fit of that order must give
         if nv > 6 and i % 5 == 0:
             cfg["qha"]["settings"]["order"] = int(rng.choice([4, 5]))      # QHA's own EoS order; the static pressure stays a cubic fit
+        # file names and locations are the user's choice: other names, a sub-directory, settings addressed by a relative path
+        if i % 4 == 1:
+            cfg["qha"]["input"], cfg["elast"]["input"] = "phonons.dat", "static/elast.txt"
+        elif i % 4 == 2:
+            cfg["qha"]["input"], cfg["elast"]["input"] = "data/input01", "data/input02"
         cls = f"{system}|{'lattice' if ds.lattice is not None else 'no-lattice'}|{interp}"
         sample = {"system": system if use_system else None, "interpolator": interp, "order": order, "volumes": nv, "nq": ds.nq, "atoms": ds.natoms,
                   "lattice_block": ds.lattice is not None, "components_in_table": ["c%d%d" % T.VOIGT21[c] for c in ds.columns], "data": data_class,
@@ -116,7 +123,17 @@ def _run(ctx, e2e):
             ctx.count("generator_skips")
             continue
         sample["grid"]["P_MIN"], sample["grid"]["DELTA_P"] = cfg["qha"]["settings"]["P_MIN"], cfg["qha"]["settings"]["DELTA_P"]
-        calc, exc = e2e.run(path, case_id, spectrum=ds.spec)
+        here = os.getcwd()
+        if i % 3 == 1:
+            os.chdir(wd)                                   # settings given by a relative name from inside the directory
+            calc, exc = e2e.run(os.path.basename(path), case_id, spectrum=ds.spec)
+            os.chdir(here)
+        elif i % 3 == 2:
+            os.chdir(os.path.dirname(wd))                  # ... or from the parent directory
+            calc, exc = e2e.run(os.path.join(os.path.basename(wd), os.path.basename(path)), case_id, spectrum=ds.spec)
+            os.chdir(here)
+        else:
+            calc, exc = e2e.run(path, case_id, spectrum=ds.spec)
         if exc is not None:
             ctx.evaluation(cls, (i,), sample=sample)
             e2e.report_construction_failure(exc, case_id, system, {"config": cfg, **sample})
